@@ -77,9 +77,18 @@ type CMode struct {
 	byKey    map[string]*cThread
 	cands    map[string][]string // cell -> candidate values (initial value first)
 	candSet  map[string]map[string]bool
+	writers  map[string]map[string]map[int]bool // cell -> value -> threads that write it (-1 = initial value)
+	ownLast  map[string]string                  // per path: last value this thread wrote to a cell
+	fCands   map[string][]string                // candidate sets frozen at the start of the pass
+	fWriters map[string]map[string]map[int]bool
+	fShared  map[string]bool
+	fObserved map[string]bool
+	pathCount map[string]int
 	initVal  map[string]string
 	snaps    map[string]*cSnapshot // value key -> snapshot
 	shared   map[string]bool       // cells touched by an atomic/shared op
+	observed map[string]bool       // cells whose value some thread looks at (Load/Swap/CAS)
+	blindAdds map[string]int
 	changed  bool
 	nodes    []*cNode
 	preObj   map[Ptr]string // slot -> cell id (pre-existing objects get ids on demand)
@@ -104,6 +113,8 @@ type CMode struct {
 		Passes, Threads, Paths, Nodes, Reads, Writes int
 		EncodeS, SolveS                              float64
 		Result                                       string
+		CutLeaves                                    int
+		UnwindOK                                     bool
 		PlainSharedWrites                            map[string]int
 	}
 	Schedule []string
@@ -280,43 +291,61 @@ func (cm *CMode) contentKey(v Value, depth int) string {
 // snapVal is the form objects travel in: like Value, but pointers to thread-local objects are
 // replaced by snapRef so that a reader can rebuild the graph in its own heap.
 type snapRef struct {
-	obj string
-	val Value
+	obj  string
+	val  Value
+	back bool // reference to an object already being copied (cycle)
 }
 
 func (cm *CMode) deepCopyOut(v Value) Value {
+	return cm.copyOut(v, map[Ptr]bool{})
+}
+
+func (cm *CMode) copyOut(v Value, seen map[Ptr]bool) Value {
 	switch v := v.(type) {
 	case Ptr:
 		if v != nil && cm.isLocal(v) {
-			return snapRef{obj: cm.slotID[v], val: cm.deepCopyOut(*v)}
+			if seen[v] {
+				return snapRef{obj: cm.slotID[v], back: true}
+			}
+			seen[v] = true
+			return snapRef{obj: cm.slotID[v], val: cm.copyOut(*v, seen)}
 		}
 		return v
 	case Struct:
 		n := make(Struct, len(v))
 		for i, f := range v {
-			n[i] = cm.deepCopyOut(f)
+			n[i] = cm.copyOut(f, seen)
 		}
 		return n
 	case Array:
 		n := make(Array, len(v))
 		for i, f := range v {
-			n[i] = cm.deepCopyOut(f)
+			n[i] = cm.copyOut(f, seen)
 		}
 		return n
 	case Iface:
 		if v.T == nil {
 			return v
 		}
-		return Iface{T: v.T, V: cm.deepCopyOut(v.V)}
+		return Iface{T: v.T, V: cm.copyOut(v.V, seen)}
 	case Slice:
 		if v.Nil {
 			return v
 		}
 		n := make([]Value, len(v.S))
 		for i, f := range v.S {
-			n[i] = cm.deepCopyOut(f)
+			n[i] = cm.copyOut(f, seen)
 		}
 		return Slice{S: n}
+	case *Closure:
+		if v == nil {
+			return v
+		}
+		env := make([]Value, len(v.Env))
+		for i, f := range v.Env {
+			env[i] = cm.copyOut(f, seen)
+		}
+		return &Closure{Fn: v.Fn, Env: env}
 	}
 	return v
 }
@@ -326,6 +355,9 @@ func (cm *CMode) deepCopyIn(v Value) Value {
 	case snapRef:
 		if p, ok := cm.localObj[v.obj]; ok {
 			return p
+		}
+		if v.back {
+			cm.x.unsupported("concurrency mode: dangling back reference in a snapshot")
 		}
 		nv := new(Value)
 		cm.localObj[v.obj] = nv
@@ -358,6 +390,15 @@ func (cm *CMode) deepCopyIn(v Value) Value {
 			n[i] = cm.deepCopyIn(f)
 		}
 		return Slice{S: n}
+	case *Closure:
+		if v == nil {
+			return v
+		}
+		env := make([]Value, len(v.Env))
+		for i, f := range v.Env {
+			env[i] = cm.deepCopyIn(f)
+		}
+		return &Closure{Fn: v.Fn, Env: env}
 	}
 	return v
 }
@@ -406,7 +447,58 @@ func (cm *CMode) fromKey(key string, like Value) Value {
 // ---------------------------------------------------------------------------
 // events (called from the intrinsics while a thread is being unfolded)
 
-func (cm *CMode) addCand(addr, val string) {
+func (cm *CMode) addCand(addr, val string) { cm.addCandBy(addr, val, cm.curID()) }
+
+func (cm *CMode) curID() int {
+	if cm.cur == nil || cm.prelude {
+		return -1
+	}
+	return cm.cur.id
+}
+
+// choices returns the candidate values a read of addr may see on this path: everything some
+// other thread (or the initial state) may have put there, and - once this thread has written the
+// cell itself - its own last value instead of anything older of its own (coherence).
+func (cm *CMode) choices(addr string) []string {
+	cs := cm.fCands[addr]
+	own, wrote := cm.ownLast[addr]
+	if !wrote {
+		return cs
+	}
+	me := cm.curID()
+	var out []string
+	for _, c := range cs {
+		if c == own {
+			out = append(out, c)
+			continue
+		}
+		for w := range cm.fWriters[addr][c] {
+			if w != me && w != -1 {
+				out = append(out, c)
+				break
+			}
+		}
+	}
+	if len(out) == 0 {
+		out = append(out, own)
+	}
+	return out
+}
+
+func (cm *CMode) addCandBy(addr, val string, who int) {
+	if cm.writers == nil {
+		cm.writers = map[string]map[string]map[int]bool{}
+	}
+	if cm.writers[addr] == nil {
+		cm.writers[addr] = map[string]map[int]bool{}
+	}
+	if cm.writers[addr][val] == nil {
+		cm.writers[addr][val] = map[int]bool{}
+	}
+	if !cm.writers[addr][val][who] {
+		cm.writers[addr][val][who] = true
+		cm.changed = true
+	}
 	if cm.candSet[addr] == nil {
 		cm.candSet[addr] = map[string]bool{}
 	}
@@ -427,7 +519,7 @@ func (cm *CMode) noteInit(addr string, p Ptr) {
 	}
 	k := cm.keep(*p)
 	cm.initVal[addr] = k
-	cm.addCand(addr, k)
+	cm.addCandBy(addr, k, -1)
 }
 
 // keep computes the key of a value and remembers the value itself for non-scalar keys.
@@ -443,30 +535,132 @@ func (cm *CMode) keep(v Value) string {
 	return k
 }
 
-// sharedRead returns the value this path reads from cell p (forking over the candidates).
-func (cm *CMode) sharedRead(p Ptr, note string) Value {
+// readOnly: the only value ever seen in the cell is its initial one.
+func (cm *CMode) readOnly(addr string) bool {
+	ws := cm.fWriters[addr]
+	if len(ws) != 1 {
+		return false
+	}
+	for _, who := range ws {
+		if len(who) == 1 && who[-1] {
+			return true
+		}
+	}
+	return false
+}
+
+// sharedCAS: compare-and-swap as two outcomes - it reads `old` and writes nv, or it reads
+// "something else" (one event whatever the other value is).
+func (cm *CMode) sharedCAS(p Ptr, old, nv Value, note string) bool {
 	x := cm.x
+	cm.budget()
 	addr := cm.cellOf(p)
 	cm.shared[addr] = true
 	cm.noteInit(addr, p)
-	cs := cm.cands[addr]
-	if cm.isLocal(p) {
-		// cell of an object that came from another thread (or was allocated here): the content it
-		// has in this heap is one candidate, always
-		cur := cm.keep(*p)
+	oldK := cm.keep(old)
+	cs := cm.readChoices(addr, p)
+	canHit, canMiss := false, false
+	for _, c := range cs {
+		if c == oldK {
+			canHit = true
+		} else {
+			canMiss = true
+		}
+	}
+	var hit bool
+	switch {
+	case canHit && canMiss:
+		hit = x.ChooseN(2, addr) == 0
+	case canHit:
+		hit = true
+	default:
+		hit = false
+	}
+	if hit {
+		k := cm.keep(nv)
+		cm.addCand(addr, k)
+		cm.ownLast[addr] = k
+		cm.events = append(cm.events, cEvent{kind: 'U', addr: addr, rval: oldK, wval: k, note: note})
+		x.store(p, copyVal(nv))
+		return true
+	}
+	cm.events = append(cm.events, cEvent{kind: 'N', addr: addr, rval: oldK, note: note})
+	return false
+}
+
+// freeze copies the candidate sets: within one pass every thread path sees the same sets, so that
+// re-execution of a decision prefix is deterministic; additions become visible in the next pass.
+func (cm *CMode) freeze() {
+	cm.fCands = map[string][]string{}
+	for k, v := range cm.cands {
+		cm.fCands[k] = append([]string{}, v...)
+	}
+	cm.fWriters = map[string]map[string]map[int]bool{}
+	for a, m := range cm.writers {
+		cm.fWriters[a] = map[string]map[int]bool{}
+		for v, ws := range m {
+			cm.fWriters[a][v] = map[int]bool{}
+			for w := range ws {
+				cm.fWriters[a][v][w] = true
+			}
+		}
+	}
+	cm.fShared = map[string]bool{}
+	for k := range cm.shared {
+		cm.fShared[k] = true
+	}
+	cm.fObserved = map[string]bool{}
+	for k := range cm.observed {
+		cm.fObserved[k] = true
+	}
+}
+
+// readChoices: the frozen candidates for addr as this path may see them; the value the cell holds in
+// this thread's own heap is always one of them (first access of a cell, objects that arrived by
+// snapshot).
+func (cm *CMode) readChoices(addr string, p Ptr) []string {
+	cs := cm.choices(addr)
+	cur := cm.keep(*p)
+	if _, wrote := cm.ownLast[addr]; !wrote {
 		found := false
 		for _, c := range cs {
 			if c == cur {
 				found = true
 			}
 		}
-		if !found {
-			cm.addCand(addr, cur)
-			cs = cm.cands[addr]
+		if !found && (cm.isLocal(p) || len(cs) == 0) {
+			cs = append(append([]string{}, cs...), cur)
+			cm.addCandBy(addr, cur, -1)
 		}
 	}
 	if len(cs) == 0 {
-		x.unsupported("concurrency mode: read of a cell without candidates " + addr)
+		cs = []string{cur}
+	}
+	return cs
+}
+
+// budget cuts a thread path that has produced too many events (the unwinding bound of this mode).
+func (cm *CMode) budget() {
+	max := int(cm.x.cfg.Params["cmdepth"])
+	if max == 0 {
+		max = 40
+	}
+	if len(cm.events) >= max {
+		panic(pathEnd{kind: "cm-cut", msg: "event budget"})
+	}
+}
+
+// sharedRead returns the value this path reads from cell p (forking over the candidates).
+func (cm *CMode) sharedRead(p Ptr, note string) Value {
+	x := cm.x
+	cm.budget()
+	addr := cm.cellOf(p)
+	cm.shared[addr] = true
+	cm.noteInit(addr, p)
+	cs := cm.readChoices(addr, p)
+	if cm.readOnly(addr) {
+		// nobody ever writes this cell: its value is a constant, not an event
+		return copyVal(*p)
 	}
 	i := x.ChooseN(len(cs), addr)
 	val := cs[i]
@@ -483,6 +677,7 @@ func (cm *CMode) sharedWrite(p Ptr, v Value, note string) {
 	cm.noteInit(addr, p)
 	k := cm.keep(v)
 	cm.addCand(addr, k)
+	cm.ownLast[addr] = k
 	cm.events = append(cm.events, cEvent{kind: 'W', addr: addr, wval: k, note: note})
 	cm.x.store(p, copyVal(v))
 }
@@ -490,23 +685,11 @@ func (cm *CMode) sharedWrite(p Ptr, v Value, note string) {
 // sharedRMW reads cell p (forking) and writes f(old); ok=false means "no write" (failed CAS).
 func (cm *CMode) sharedRMW(p Ptr, note string, f func(old Value) (Value, bool)) Value {
 	x := cm.x
+	cm.budget()
 	addr := cm.cellOf(p)
 	cm.shared[addr] = true
 	cm.noteInit(addr, p)
-	cs := cm.cands[addr]
-	if cm.isLocal(p) {
-		cur := cm.keep(*p)
-		found := false
-		for _, c := range cs {
-			if c == cur {
-				found = true
-			}
-		}
-		if !found {
-			cm.addCand(addr, cur)
-			cs = cm.cands[addr]
-		}
-	}
+	cs := cm.readChoices(addr, p)
 	i := x.ChooseN(len(cs), addr)
 	val := cs[i]
 	old := cm.fromKey(val, *p)
@@ -518,6 +701,7 @@ func (cm *CMode) sharedRMW(p Ptr, note string, f func(old Value) (Value, bool)) 
 	}
 	k := cm.keep(nv)
 	cm.addCand(addr, k)
+	cm.ownLast[addr] = k
 	cm.events = append(cm.events, cEvent{kind: 'U', addr: addr, rval: val, wval: k, note: note})
 	x.store(p, copyVal(nv))
 	return old
@@ -554,7 +738,7 @@ func (x *Exec) ChooseN(n int, what string) int {
 // RunConcurrent performs the whole concurrency-mode analysis of one harness entry.
 func (x *Exec) RunConcurrent(entry *ssa.Function) *CMode {
 	cm := &CMode{x: x, byKey: map[string]*cThread{}, cands: map[string][]string{}, candSet: map[string]map[string]bool{},
-		initVal: map[string]string{}, snaps: map[string]*cSnapshot{}, shared: map[string]bool{}, preObj: map[Ptr]string{},
+		initVal: map[string]string{}, observed: map[string]bool{}, blindAdds: map[string]int{}, snaps: map[string]*cSnapshot{}, shared: map[string]bool{}, preObj: map[Ptr]string{},
 		keyVals: map[string]Value{}, overrides: map[string]Value{}}
 	cm.Stats.PlainSharedWrites = map[string]int{}
 	x.cm = cm
@@ -566,6 +750,7 @@ func (x *Exec) RunConcurrent(entry *ssa.Function) *CMode {
 	x.journal = x.journal[:0]
 	cm.slotID = map[Ptr]string{}
 	cm.localObj = map[string]Ptr{}
+	cm.ownLast = map[string]string{}
 	cm.prelude = true
 	pe := x.runThreadBody(entry, nil)
 	cm.prelude = false
@@ -593,6 +778,7 @@ func (x *Exec) RunConcurrent(entry *ssa.Function) *CMode {
 	for pass := 1; pass <= 12; pass++ {
 		cm.Stats.Passes = pass
 		cm.changed = false
+		cm.freeze()
 		for i := 0; i < len(cm.threads); i++ { // threads may be added while iterating
 			t := cm.threads[i]
 			t.root = nil
@@ -678,6 +864,8 @@ func (cm *CMode) unfold(t *cThread) bool {
 		cm.spawnSeq = 0
 		cm.pathBad = ""
 		cm.pathEnd = ""
+		cm.ownLast = map[string]string{}
+		cm.pathCount = nil
 		args := make([]Value, len(t.args))
 		for i, a := range t.args {
 			args[i] = cm.deepCopyIn(a)
@@ -701,6 +889,8 @@ func (cm *CMode) unfold(t *cThread) bool {
 			end = "bad"
 		case "cm-blocked", "hang":
 			end = "blocked"
+		case "cm-cut":
+			end = "cut"
 		case "panic", "panic-goroutine":
 			end = "bad"
 			cm.pathBad = "uncaught " + firstLine(pe.msg)
@@ -769,7 +959,10 @@ func (cm *CMode) merge(t *cThread, evs []cEvent, end, bad string) {
 
 // spawnThread registers (or finds) the thread started by a `go` statement or lib.VerifGo.
 func (cm *CMode) spawnThread(name string, fn Value, args []Value, observer bool) *cThread {
-	key := name
+	key := fmt.Sprintf("%s#%d", name, len(cm.threads))
+	if cm.prelude {
+		name = key
+	}
 	if !cm.prelude {
 		cm.spawnSeq++
 		key = fmt.Sprintf("%s>%d:%s", cm.cur.spawnKey, len(cm.events), name)
@@ -808,6 +1001,7 @@ func (cm *CMode) solve() {
 	for _, n := range cm.nodes {
 		w("(declare-const %s Bool)", on(n))
 		w("(declare-const %s Int)", ck(n))
+		w("(assert (>= %s 0))", ck(n))
 	}
 	// tree structure and program order
 	for _, n := range cm.nodes {
@@ -843,7 +1037,7 @@ func (cm *CMode) solve() {
 	writes := map[string][]*cNode{}
 	for _, n := range cm.nodes {
 		switch n.ev.kind {
-		case 'R':
+		case 'R', 'N':
 			reads[n.ev.addr] = append(reads[n.ev.addr], n)
 			cm.Stats.Reads++
 		case 'W':
@@ -882,62 +1076,38 @@ func (cm *CMode) solve() {
 	nrf := 0
 	for addr, rs := range reads {
 		ws := writes[addr]
-		// distinct clocks for writes to one address
+		// distinct clocks for writes of different threads to one address
 		for i := 0; i < len(ws); i++ {
 			for j := i + 1; j < len(ws); j++ {
-				if !excl(ws[i], ws[j]) && ws[i].thr != ws[j].thr {
+				if ws[i].thr != ws[j].thr {
 					w("(assert (=> (and %s %s) (not (= %s %s))))", on(ws[i]), on(ws[j]), ck(ws[i]), ck(ws[j]))
 				}
 			}
 		}
 		for _, r := range rs {
+			matches := func(v string) bool {
+				if r.ev.kind == 'N' {
+					return v != r.ev.rval
+				}
+				return v == r.ev.rval
+			}
+			// s_r: clock of the write this read takes its value from (-1: the initial value)
+			sr := fmt.Sprintf("s%d", r.id)
+			w("(declare-const %s Int)", sr)
 			var alts []string
-			// initial value
-			if r.ev.rval == cm.initVal[addr] {
-				name := fmt.Sprintf("rfi%d", r.id)
-				w("(declare-const %s Bool)", name)
-				var conds []string
-				for _, o := range ws {
-					if o == r || excl(o, r) || ancestor(r, o) {
-						continue
-					}
-					if ancestor(o, r) {
-						conds = append(conds, "false")
-						break
-					}
-					conds = append(conds, fmt.Sprintf("(=> %s (< %s %s))", on(o), ck(r), ck(o)))
-				}
-				if len(conds) == 0 {
-					conds = []string{"true"}
-				}
-				w("(assert (=> %s (and %s)))", name, strings.Join(conds, " "))
-				alts = append(alts, name)
+			if iv, ok := cm.initVal[addr]; ok && matches(iv) {
+				alts = append(alts, fmt.Sprintf("(= %s (- 1))", sr))
 			}
 			for _, src := range ws {
-				if src == r || src.ev.wval != r.ev.rval || excl(src, r) || ancestor(r, src) {
+				if src == r || excl(src, r) || ancestor(r, src) {
 					continue
 				}
-				name := fmt.Sprintf("rf%d_%d", src.id, r.id)
-				nrf++
-				w("(declare-const %s Bool)", name)
-				conds := []string{on(src), fmt.Sprintf("(< %s %s)", ck(src), ck(r))}
-				feasible := true
-				for _, o := range ws {
-					if o == src || o == r || excl(o, r) || excl(o, src) {
-						continue
-					}
-					if ancestor(src, o) && ancestor(o, r) {
-						feasible = false // own later write in between
-						break
-					}
-					conds = append(conds, fmt.Sprintf("(=> %s (or (< %s %s) (< %s %s)))", on(o), ck(o), ck(src), ck(r), ck(o)))
+				// every write that is on and before r is not later than the source
+				w("(assert (=> (and %s %s (< %s %s)) (<= %s %s)))", on(r), on(src), ck(src), ck(r), ck(src), sr)
+				if matches(src.ev.wval) {
+					nrf++
+					alts = append(alts, fmt.Sprintf("(and %s (< %s %s) (= %s %s))", on(src), ck(src), ck(r), sr, ck(src)))
 				}
-				if !feasible {
-					w("(assert (not %s))", name)
-					continue
-				}
-				w("(assert (=> %s (and %s)))", name, strings.Join(conds, " "))
-				alts = append(alts, name)
 			}
 			if len(alts) == 0 {
 				w("(assert (not %s))", on(r))
@@ -946,6 +1116,7 @@ func (cm *CMode) solve() {
 			}
 		}
 	}
+	w("(assert true) ; %d read-from alternatives", nrf)
 	// quiescence for observer threads: everything that started has finished
 	for _, t := range cm.threads {
 		if !t.observer || t.root == nil {
@@ -984,16 +1155,39 @@ func (cm *CMode) solve() {
 		}
 	}
 	// the question: is some violating leaf reachable?
-	var bads []string
+	var bads, cuts []string
 	for _, n := range cm.nodes {
 		if n.bad != "" {
 			bads = append(bads, on(n))
 		}
+		if n.end == "cut" {
+			cuts = append(cuts, on(n))
+		}
+	}
+	cm.Stats.CutLeaves = len(cuts)
+	base := sb.String()
+	if len(cuts) > 0 {
+		// unwinding check: can any interleaving run a thread past its event budget?
+		t1 := time.Now()
+		res := cm.ask(base + fmt.Sprintf("(assert (or %s))\n(check-sat)\n", strings.Join(cuts, " ")))
+		cm.Stats.SolveS += time.Since(t1).Seconds()
+		switch res {
+		case "unsat":
+			cm.Stats.UnwindOK = true
+		case "sat":
+			x.note("concurrency mode: some interleaving runs a thread past its event budget (cmdepth): bound too small")
+		default:
+			x.note("concurrency mode: unwinding check answered " + oneLineStr(res))
+		}
+	} else {
+		cm.Stats.UnwindOK = true
 	}
 	cm.Stats.EncodeS = time.Since(t0).Seconds()
 	if len(bads) == 0 {
 		cm.Stats.Result = "unsat"
-		cm.Stats.SolveS = 0
+		if !cm.Stats.UnwindOK {
+			cm.Stats.Result = "unsat-but-unwinding-bound-hit"
+		}
 		return
 	}
 	w("(assert (or %s))", strings.Join(bads, " "))
@@ -1019,6 +1213,9 @@ func (cm *CMode) solve() {
 	switch first {
 	case "unsat":
 		cm.Stats.Result = "unsat"
+		if !cm.Stats.UnwindOK {
+			cm.Stats.Result = "unsat-but-unwinding-bound-hit"
+		}
 		x.solver.NUnsat++
 	case "sat":
 		cm.Stats.Result = "sat"
@@ -1091,6 +1288,8 @@ func (cm *CMode) extract(out string) {
 		switch e.kind {
 		case 'R':
 			cm.Schedule = append(cm.Schedule, fmt.Sprintf("%-28s read  %s = %s  %s", n.thr.name, e.addr, shortVal(e.rval), e.note))
+		case 'N':
+			cm.Schedule = append(cm.Schedule, fmt.Sprintf("%-28s read  %s != %s  %s", n.thr.name, e.addr, shortVal(e.rval), e.note))
 		case 'W':
 			cm.Schedule = append(cm.Schedule, fmt.Sprintf("%-28s write %s := %s  %s", n.thr.name, e.addr, shortVal(e.wval), e.note))
 		case 'U':
@@ -1137,12 +1336,20 @@ func (cm *CMode) active() bool { return cm != nil && !cm.prelude }
 
 func (cm *CMode) isSharedCell(p Ptr) bool {
 	if id, ok := cm.slotID[p]; ok {
-		return cm.shared[id]
+		return cm.fShared[id]
 	}
 	if id, ok := cm.preObj[p]; ok {
-		return cm.shared[id]
+		return cm.fShared[id]
 	}
 	return false
+}
+
+func (cm *CMode) markObserved(p Ptr) {
+	id := cm.cellOf(p)
+	if !cm.observed[id] {
+		cm.observed[id] = true
+		cm.changed = true
+	}
 }
 
 func (cm *CMode) markShared(p Ptr) {
@@ -1272,6 +1479,25 @@ func init() {
 		}
 		return nil
 	})
+	reg(libPkg+"VerifPathCount", func(fr *frame, args []Value) Value {
+		// per thread path counter (loop-unwinding bounds inside harness fakes)
+		x := fr.x
+		name := concStr(x, args[0])
+		if x.cm == nil {
+			return x.ts.BV(0, 64)
+		}
+		if x.cm.pathCount == nil {
+			x.cm.pathCount = map[string]int{}
+		}
+		x.cm.pathCount[name]++
+		return x.ts.BV(uint64(x.cm.pathCount[name]), 64)
+	})
+	reg(libPkg+"VerifCut", func(fr *frame, args []Value) Value {
+		if fr.x.cm.active() {
+			panic(pathEnd{kind: "cm-cut", msg: "harness bound"})
+		}
+		return nil
+	})
 	reg(libPkg+"VerifConcurrentMode", func(fr *frame, args []Value) Value {
 		return fr.x.ts.Bool(fr.x.cm != nil)
 	})
@@ -1281,4 +1507,19 @@ var _ = types.Typ
 
 func (cm *CMode) lockCell(p Ptr) Ptr {
 	return cm.synthCell("lock:"+cm.cellOf(p), func() Value { return cm.x.ts.BV(0, 64) })
+}
+
+// ask runs the concurrency solver on a script and returns the first line of its answer.
+func (cm *CMode) ask(script string) string {
+	f, _ := os.CreateTemp("", "gosym-cm-*.smt2")
+	f.WriteString(script)
+	f.Close()
+	defer os.Remove(f.Name())
+	out := runSolverFile(cm.x.cfg.CSolver, f.Name(), cm.x.cfg.CTimeoutS)
+	cm.x.solver.Queries++
+	first := strings.TrimSpace(out)
+	if i := strings.IndexByte(first, '\n'); i >= 0 {
+		first = first[:i]
+	}
+	return first
 }
